@@ -685,6 +685,92 @@ def _table_reader_paths(pm, rel, reader):
             paths.append(Path(conds, body, "return"))
         paths.append(Path([(t, False) for t, _ in entries], [], "return"))
         return paths
+    # any other loop body `if <test over the columns and the dict>: <statements>; return …`: each row read with its
+    # columns substituted into the test and the body, and what is then decided, decided: `{"a", "b"} <= d.keys()` is
+    # `"a" in d and "b" in d`, `None is None` holds, `<lambda> is None` does not, lambdas are applied, small functions of
+    # the module replaced by what they return
+    if (len(names) == len(loop.target.elts) and len(loop.body) == 1 and isinstance(first, ast.If) and not first.orelse
+            and all(isinstance(e, ast.Tuple) and len(e.elts) == len(names) for e in table.elts)
+            and not all(len(e.elts) == 2 and isinstance(e.elts[1], ast.Name) for e in table.elts)):
+        from ..astutil import straightline_value as _slv
+
+        def decide(t):
+            class D(ast.NodeTransformer):
+                def visit_Call(self, node):
+                    self.generic_visit(node)
+                    f_ = node.func
+                    if isinstance(f_, ast.Lambda) and not node.keywords and len(node.args) == len(f_.args.args):
+                        return self.visit(substitute(f_.body, {p_.arg: a for p_, a in zip(f_.args.args, node.args)}))
+                    if isinstance(f_, ast.Name):
+                        v = _slv(node, None, finder)
+                        if v is not None:
+                            return self.visit(v)
+                    return node
+
+                def visit_Compare(self, node):
+                    self.generic_visit(node)
+                    if len(node.ops) == 1:
+                        l, r, op = node.left, node.comparators[0], node.ops[0]
+                        if isinstance(op, (ast.Is, ast.IsNot)) and isinstance(r, ast.Constant) and r.value is None:
+                            if isinstance(l, ast.Constant) and l.value is None:
+                                return ast.copy_location(ast.Constant(value=isinstance(op, ast.Is)), node)
+                            if isinstance(l, (ast.Lambda, ast.Name)) and (isinstance(l, ast.Lambda) or finder(l.id) is not None):
+                                return ast.copy_location(ast.Constant(value=isinstance(op, ast.IsNot)), node)
+                        if isinstance(op, ast.LtE) and isinstance(l, ast.Set) and l.elts and all(isinstance(x, ast.Constant) for x in l.elts) \
+                                and (norm(r) in (f"{dparam}.keys()", f"set({dparam})", f"set({dparam}.keys())", dparam)):
+                            vals = [ast.Compare(left=x, ops=[ast.In()], comparators=[r]) for x in sorted(l.elts, key=lambda c: str(c.value))]
+                            return ast.copy_location(vals[0] if len(vals) == 1 else ast.BoolOp(op=ast.And(), values=vals), node)
+                    return node
+
+                def visit_BoolOp(self, node):
+                    self.generic_visit(node)
+                    vals = []
+                    for v in node.values:
+                        if isinstance(v, ast.Constant) and isinstance(v.value, bool):
+                            if isinstance(node.op, ast.And) and v.value is False:
+                                return ast.copy_location(ast.Constant(value=False), node)
+                            if isinstance(node.op, ast.Or) and v.value is True:
+                                return ast.copy_location(ast.Constant(value=True), node)
+                            continue
+                        vals.append(v)
+                    if not vals:
+                        return ast.copy_location(ast.Constant(value=isinstance(node.op, ast.And)), node)
+                    if len(vals) == 1:
+                        return vals[0]
+                    node.values = vals
+                    return node
+            out = D().visit(t)
+            ast.fix_missing_locations(out)
+            return out
+        entries = []
+        for e in table.elts:
+            m = {n_: c_ for n_, c_ in zip(names, e.elts)}
+            test = decide(substitute(first.test, m))
+            body = [decide(substitute_stmt(b, m)) for b in first.body]
+            for b in body:
+                for x in ast.walk(b):
+                    for ch in ast.iter_child_nodes(x):
+                        ch._parent = x
+            entries.append((test, body))
+        # the loop unrolled over the rows, in place, in a copy of the reader: what precedes and follows it is part of
+        # every path, with its own branches
+        from ..paths import enumerate_paths as _enum
+        from ..astutil import clone as _clone_r, set_parents as _sp_r
+        unrolled = []
+        for test, body in entries:
+            if isinstance(test, ast.Constant) and test.value is False:
+                continue
+            if isinstance(test, ast.Constant) and test.value is True:
+                unrolled += body
+                break
+            unrolled.append(ast.copy_location(ast.If(test=test, body=body, orelse=[]), loop))
+        view = _clone_r(reader)
+        idx = next((i for i, st in enumerate(reader.body) if st is loop), None)
+        if idx is None:
+            return None
+        view.body = view.body[:idx] + unrolled + view.body[idx + 1:]
+        ast.fix_missing_locations(view)
+        return _enum(_sp_r(view))
     entries = []
     for e in table.elts:
         if not (isinstance(e, ast.Tuple) and len(e.elts) == 2 and isinstance(e.elts[1], ast.Name)):
